@@ -99,7 +99,7 @@ func Corpus() []string {
 // declaration in which the reference finds nothing must be canonically identical, the
 // number and order of declarations and the package clause unchanged; declarations with
 // sites are compared against the full expectation.
-func judgeOutside(pat *ref.Pattern, src string, run engineRun) (class, detail string, sitedDecls, cleanDecls int, inconcl string) {
+func judgeOutside(pat *ref.Pattern, src string, run engineRun, added []ref.Import) (class, detail string, sitedDecls, cleanDecls int, inconcl string) {
 	in, _, _, err := ref.ParseFile([]byte(src), false)
 	if err != nil {
 		return "", "", 0, 0, "input does not parse for the reference"
@@ -116,6 +116,9 @@ func judgeOutside(pat *ref.Pattern, src string, run engineRun) (class, detail st
 	}
 	if out.Pkg != in.Pkg {
 		return "package-clause-changed", in.Pkg + " -> " + out.Pkg, 0, 0, ""
+	}
+	if run.Out != src {
+		in.Imports = append(in.Imports, added...)
 	}
 	if !sameImports(in.Imports, out.Imports) {
 		return "imports-changed", fmt.Sprintf("%v -> %v", in.Imports, out.Imports), 0, 0, ""
@@ -226,6 +229,11 @@ func runC05(ctx *core.Ctx, idx int) *core.Result {
 		res.Inconcl++
 		return res
 	}
+	if idx%5 == 4 {
+		// the patch also adds an import: a file without imports gets a new first declaration
+		withAddedImport(c)
+		res.Ob("patches-with-added-import", 1)
+	}
 	pt := c.PatchText()
 	paths := [][]engineRun{applyAPI(pt, srcs)}
 	pnames := []string{"api"}
@@ -237,7 +245,7 @@ func runC05(ctx *core.Ctx, idx int) *core.Result {
 	for pi, runs := range paths {
 		for i, src := range srcs {
 			res.Evals++
-			class, detail, sited, clean, inc := judgeOutside(pat, src, runs[i])
+			class, detail, sited, clean, inc := judgeOutside(pat, src, runs[i], addedImports(c))
 			if inc != "" {
 				res.Inconcl++
 				res.Ob("inconclusive:"+strings.SplitN(inc, ":", 2)[0], 1)
